@@ -18,7 +18,9 @@ func resKey(r *corpus.Res) string {
 	if r.Fatal != "" || r.Panic != "" {
 		return "CRASH " + r.Panic + firstLine(r.Fatal)
 	}
-	ev := fmt.Sprintf(" end=%d events=%d:%s", r.End, len(r.Events), report.Hash(fmt.Sprint(r.Events)))
+	// (observer events of state changes / predicates are not part of the key: with memoisation a rule body, and the
+	// state change in it, is legitimately evaluated once per offset, without it every time)
+	ev := fmt.Sprintf(" end=%d", r.End)
 	if r.OK {
 		return fmt.Sprintf("OK toks=%s tree=%s print=%q trace=%s", tokStrings(r.Toks), r.Shape, r.Sprint, traceString(r.Trace)) + ev
 	}
@@ -140,6 +142,9 @@ func c12(c *ctx) {
 		results, err := cp.Run(reqs, corpus.RunOpts{})
 		if err != nil {
 			die("corpus run: %v", err)
+		}
+		if cp.WatchdogHits > 0 {
+			c.run.Incon(fmt.Sprintf("%d child processes were stopped by the wall-clock watchdog", cp.WatchdogHits))
 		}
 		base := map[*hcase][]string{}
 		baseOK := map[*hcase][]bool{}
